@@ -1708,6 +1708,10 @@ def check_C06(ck):
             v = rng.choice(uvals)
             fx.append(("h2c/fixed-uniform-bytes/ro", "h2cfix %s ro %s" % (tag, (enc(u) + enc(v)).hex()))); fus.append([u, v])
             fx.append(("h2c/fixed-uniform-bytes/ro-equal", "h2cfix %s ro %s" % (tag, (enc(u) + enc(u)).hex()))); fus.append([u, u])
+        # pairs of DISTINCT field elements whose SSWU images coincide / cancel, through the whole hash_to_curve pipeline
+        for (cl, (u0_, u1_)) in map_input_pairs(g, tag, [K.rand(rng) for _ in range(3 if not thorough else 10)] + [K.one], rng):
+            if cl.startswith("distinct"):
+                fx.append(("h2c/fixed-uniform-bytes/ro-" + cl, "h2cfix %s ro %s" % (tag, (enc(u0_) + enc(u1_)).hex()))); fus.append([u0_, u1_])
         fwant, _, _ = _compose_map(ck, g, tag, fus, "h2cfix")
         for c, (impl, _), w in zip(fx, ck.run(fx), fwant):
             ck.expect(impl == g.A(w), "rfc-suite:chosen-u", c[1][:100], impl, g.A(w), "hash_to_curve pipeline on chosen field elements")
